@@ -58,8 +58,9 @@ class Prop:
                            'scheduler (harness/daemon/table_manager_hx.rs verif_sub_cases), fold by bmp.rs apply_snapshot / track_peer_*')
     rule = ('a case is (programs of <= 3 threads, schedule); non-trivial when the subscriber registers while another thread still has '
             'steps to run and at least one route event is delivered after EndOfSnapshot or during the snapshot walk; distinct = distinct '
-            '(programs, canonical event sequence)')
-    exhaustive = {'quick': False, 'thorough': True}
+            '(programs, canonical event sequence); the thorough tier adds every interleaving (12600 schedules) of subscribe || one session thread '
+            '(two inserts / insert+remove / session down) || soft_reset_in after a policy change')
+    exhaustive = {'quick': False, 'thorough': False}
     trusted_base = [
         'C18: atomic steps are the stretches between scheduling points (before every shard-lock acquisition and before every operation); '
         'std::sync::Mutex / ArcSwap / tokio mpsc are assumed sequentially consistent and the sends inside one critical section are treated '
@@ -154,24 +155,18 @@ class Prop:
         return cases
 
     def exhaustive_cases(self):
-        """every interleaving of subscribe (3 steps) with a writer program of 2 ops and a
-        policy-change + soft-reset thread"""
+        """every interleaving of subscribe (3 steps) with a session thread (4 steps) and a
+        soft reset (3 steps), after a sequential prefix that installs routes in both shards
+        and changes the import policy: 3 x 10!/(3!4!3!) = 12600 schedules"""
         out = []
         writers = [[('ins', (1, 0, 0, 0), 1), ('ins', (1, 1, 0, 0), 2)],
-                   [('ins', (1, 0, 0, 0), 1), ('rem', (1, 0, 0, 0))],
-                   [('ins', (1, 1, 0, 0), 1), ('down', 1)]]
-        third = [[('pol', 1), ('reset', 1)], [('up', 1), ('reset', 1)]]
+                   [('ins', (1, 0, 0, 0), 1), ('rem', (1, 0, 1, 0))],
+                   [('down', 1)]]
         for w in writers:
-            for th in third:
-                progs = [[('sub',)], [('ins', (1, 0, 1, 0), 3)] + w, th]
-                counts = [sum(NSTEPS[o[0]] for o in p) for p in progs]
-                # the first insert completes before anything else, then all interleavings of the rest
-                base = [1, 1]
-                counts[1] -= 2
-                seq = [0] * counts[0] + [1] * counts[1] + [2] * counts[2]
-                seen = set()
-                for perm in self._interleavings(counts):
-                    out.append(dict(pols=[[1], [2]], lims=[], progs=progs, sched=base + list(perm)))
+            progs = [[('sub',)], [('ins', (1, 0, 1, 0), 3), ('ins', (1, 1, 1, 0), 0)] + w, [('pol', 1), ('reset', 1)]]
+            base = [1, 1, 1, 1, 2]
+            for perm in self._interleavings([3, 4, 3]):
+                out.append(dict(pols=[[1], [2]], lims=[], progs=progs, sched=base + list(perm)))
         return out
 
     @staticmethod
